@@ -25,6 +25,9 @@ type negoCase struct {
 	Accs2 []string `json:"accs2"`
 	// Compact: the handler switches pretty printing off (the streaming branch of the entity writers)
 	Compact bool `json:"compact"`
+	// PreCT != "": a Content-Type is already on the response when the entity is written (a filter's default, or a
+	// representation the handler abandoned)
+	PreCT string `json:"preCT"`
 }
 
 type negoPlan struct {
@@ -41,7 +44,7 @@ type negoEntity struct {
 }
 
 const (
-	mimeVnd    = "application/vnd.x+json"
+	mimeVnd    = "application/vnd.Acme.X+json" // registered and declared with upper-case letters
 	mimeCustom = "text/x-custom"
 )
 
@@ -69,6 +72,9 @@ func runNegoCase(tw *traceWriter, c negoCase, registered []string, reps int) {
 			ran++
 			if c.Compact {
 				resp.PrettyPrint(false)
+			}
+			if c.PreCT != "" {
+				resp.Header().Set("Content-Type", c.PreCT)
 			}
 			resp.WriteEntity(negoEntity{A: "x", N: 7})
 		}))
@@ -135,7 +141,7 @@ func runNegoCase(tw *traceWriter, c negoCase, registered []string, reps int) {
 			r = 1
 		}
 		tw.emit(map[string]interface{}{"e": "nego", "produces": c.Produces, "registered": registered, "def": c.Def,
-			"acc": acc, "acc2": acc2, "ran": r, "sts": stl, "cts": ctl, "dec": dec, "panic": panicked, "compact": c.Compact})
+			"acc": acc, "acc2": acc2, "ran": r, "sts": stl, "cts": ctl, "dec": dec, "panic": panicked, "compact": c.Compact, "preCT": c.PreCT})
 	}
 }
 
@@ -199,7 +205,7 @@ func runNego(planPath, outPath string, seed int64) {
 		for _, k := range perm[:n] {
 			prod = append(prod, pool[k])
 		}
-		c := negoCase{Produces: prod, Def: pick(r, []string{"", "", "", restful.MIME_JSON, restful.MIME_XML}), Compact: r.Intn(3) == 0}
+		c := negoCase{Produces: prod, Def: pick(r, []string{"", "", "", restful.MIME_JSON, restful.MIME_XML}), Compact: r.Intn(3) == 0, PreCT: pick(r, []string{"", "", "", "text/csv", "text/plain; charset=utf-8"})}
 		if all {
 			c.Registered = pool
 		} else {
